@@ -141,8 +141,10 @@ class ClassAnalyzer:
         """
         try:
             return ast.parse(context.file_content or "")
-        except SyntaxError as exc:
-            return [self._create_syntax_error_violation(exc, context)]
+        except (SyntaxError, RecursionError, MemoryError) as exc:
+            # Parser resource limits (too deep / too long expressions) are reported like syntax errors
+            error = exc if isinstance(exc, SyntaxError) else SyntaxError(str(exc))
+            return [self._create_syntax_error_violation(error, context)]
 
     def _create_syntax_error_violation(
         self, exc: SyntaxError, context: BaseLintContext
